@@ -21,6 +21,7 @@ pub fn kinds_for(prop: &str) -> Vec<&'static str> {
         "C11" => vec!["model", "garbage", "capacity", "stack-alloc", "clone-count"],
         "C18" => vec!["alloc-shape", "alloc-layout", "alloc-invalid", "alloc-leak"],
         "C06" => vec!["double-drop", "corrupt-drop", "corrupt-clone", "clone-of-dead", "dup", "dead-visible", "garbage", "model", "guard", "stale-write", "len>cap", "crash", "meta", "view"],
+        "C19" => vec!["model", "garbage", "stack-alloc", "capacity", "iter", "clone-count", "double-drop", "leak", "dup"],
         "C07" => vec!["forget-prefix", "model", "garbage", "dup", "dead-visible", "double-drop", "corrupt-drop", "iter"],
         "C13" => vec!["handle", "model", "garbage", "view"],
         "C17" => vec!["rawparts", "model", "garbage", "leak", "double-drop", "alloc-leak", "alloc-shape", "dup"],
@@ -127,6 +128,16 @@ pub fn run(ctx: &mut Ctx) {
             fam::exhaustive(ctx, "range", &cfgs, l, false, &fam::range_ops);
             fam::exhaustive(ctx, "clone", &cfgs, l, false, &fam::clone_ops);
             fam::exhaustive(ctx, "lazy", &cfgs, l.min(5), false, &fam::lazy_ops);
+            fam::histories(ctx, "mixed-hist", &cfgs, &hist(thorough, true, true, false, true));
+            crate::special::c11_grid(ctx);
+        }
+        "C19" => {
+            use hvcore::rigapi::MemKind;
+            cfgs.retain(|c| matches!(c.mem, MemKind::Stack | MemKind::StackN));
+            fam::exhaustive(ctx, "elem", &cfgs, l, true, &fam::elem_seqs);
+            fam::exhaustive(ctx, "range", &cfgs, l, false, &fam::range_ops);
+            fam::exhaustive(ctx, "clone", &cfgs, l, false, &fam::clone_ops);
+            fam::exhaustive(ctx, "lazy", &cfgs, 3, false, &fam::lazy_ops);
             fam::histories(ctx, "mixed-hist", &cfgs, &hist(thorough, true, true, false, true));
             crate::special::c11_grid(ctx);
         }
